@@ -516,12 +516,21 @@ class Exec:
         idx = tuple(idx)
         idx = self.norm_index(st, arr, idx, node, True)
         base, bidx = arr.map_index(idx)
+        self.own_obligation(st, base, bidx, node)
         val = self.coerce_store(st, base.dtype, val, node)
         term = st.heap[base.oid]
         zi = [zint(i) for i in bidx]
         st.heap[base.oid] = z3.Store(term, *zi, val)
         if base.oid in st.written:
             st.written[base.oid] = z3.Store(st.written[base.oid], *zi, z3.BoolVal(True))
+
+    def own_obligation(self, st, base, bidx, node):
+        pr = st.extra.get("prange")
+        if pr is None or base.oid not in pr[1]:
+            return
+        k = pr[0]
+        comps = [zint(i) == k for i in bidx if not isinstance(i, slice)]
+        self.emit(st, "own", self.node_name(node, "store"), z3.Or(*comps) if comps else z3.BoolVal(False), self.where(node))
 
     def coerce_store(self, st, dtype, val, node=None):
         fm = self.fm
@@ -628,6 +637,8 @@ class Exec:
         ks = [z3.Int(f"k!a{i}") for i in range(base.ndim)]
 
         if dst.view is None:
+            self.own_obligation(st, base, [], node)
+
             def val(k):
                 v = self.read(st, src, k, node, check=False) if isinstance(src, Arr) else src
                 return self.coerce_elem(st, base.dtype, v, src if isinstance(src, Arr) else None)
@@ -648,6 +659,7 @@ class Exec:
             raise Unsupported("whole-assignment into unsupported view")
         # info: (axis, fixed: dict axis->index, offset) relative to root
         axis, fixed, off = info
+        self.own_obligation(st, base, [fixed[ax] for ax in sorted(fixed)], node)
         n = dst.shape[0]
         conds = []
         for ax, k in enumerate(ks):
